@@ -24,8 +24,10 @@ None == 0
 (* S : [stored, inlc, lc, tip, utxo]                                       *)
 
 (* top: the greatest height ever wound (the code's last_block_id); it never decreases *)
+(* loaded: the node has finished its initial loading (a constant of a behaviour): from then on *)
+(* a block whose parent it does not hold is not stored but answered with a fetch of the parent *)
 EmptyState == [stored |-> {}, inlc |-> {}, lc |-> [h \in 1..MaxH |-> None],
-               tip |-> None, utxo |-> {}, top |-> 0]
+               tip |-> None, utxo |-> {}, top |-> 0, loaded |-> FALSE]
 
 RECURSIVE PathUp(_, _, _)
 PathUp(A, b, within) ==   \* root-first path of stored ancestors ending in b
@@ -194,6 +196,7 @@ Longer(A, S, b, new, old) ==
 Decide(A, S, b, m) ==
     IF b \in S.stored THEN [k |-> "Exists"]
     ELSE IF S.stored = {} THEN [k |-> "Reorg", new |-> <<b>>, old |-> <<>>]
+    ELSE IF S.loaded /\ A[b].parent # None /\ A[b].parent \notin S.stored THEN [k |-> "Retry"]
     ELSE LET st2 == S.stored \cup {b}
              nc == NewChain(A, b, st2, S.inlc)
              new == nc.chain
@@ -216,6 +219,10 @@ AddSetM(A, S, b, m) ==
     CASE d.k = "Exists" -> {[res |-> "Exists", S |-> S]}
       [] d.k \in {"Orphan", "Disconnected", "Side"} -> {[res |-> "AddedSide", S |-> Stored(S, b)]}
       [] d.k = "GTFail" -> {[res |-> "Invalid", S |-> S]}
+      \* not stored: the caller is told to fetch the parent (or the chain), or, when the block lies
+      \* below the retention window of the tip, that it is too old
+      [] d.k = "Retry" -> {[res |-> IF S.tip = None \/ A[S.tip].height <= G \/ A[b].height + G > A[S.tip].height
+                                    THEN "Retry" ELSE "Invalid", S |-> S]}
       [] d.k = "Reorg" ->
              (IF OkLenient(A, d.new, S.stored \cup {b})
               THEN {[res |-> "AddedLc", S |-> Adopted(A, S, b, d.old, d.new)]} ELSE {})
